@@ -1,13 +1,13 @@
 SPECIFICATION Spec
 CONSTANTS
   VCodec = "avc"
-  ACodec = "opus"
-  MaxPub = 10
-  MaxVer = 3
+  ACodec = "none"
+  MaxPub = 5
+  MaxVer = 2
   VKinds <- AvcAll
-  DtPool <- Dt5
+  DtPool <- Dt3
   AscPool = {1, 2, 3}
   ProbeMax = 16
-  GopNum = 0
+  GopNum = 1
 INVARIANTS AllOk EndComplete
-ACTION_CONSTRAINT EmitA
+VIEW View
